@@ -1,0 +1,55 @@
+"""
+Verification trace hooks (no-op unless the environment variable BLDFM_VERIF=1).
+
+``emit(event, **fields)`` appends one JSON line to the file named by
+``BLDFM_VERIF_TRACE``, stamped with the process id and a per-process sequence
+number. Nothing in the package depends on it; with the guard off every call
+returns immediately.
+"""
+
+import json
+import os
+
+ON = os.environ.get("BLDFM_VERIF") == "1"
+
+_seq = 0
+_pid = None
+
+
+def _plain(o):
+    """JSON fallback for numpy scalars/arrays and other objects."""
+    try:
+        import numpy as np
+
+        if isinstance(o, np.generic):
+            return o.item()
+        if isinstance(o, np.ndarray):
+            return o.tolist()
+    except Exception:
+        pass
+    if isinstance(o, (set, frozenset, tuple)):
+        return list(o)
+    return repr(o)
+
+
+def emit(event, **fields):
+    """Append one trace event (after the state change it describes)."""
+    global _seq, _pid
+    if not ON:
+        return
+    path = os.environ.get("BLDFM_VERIF_TRACE")
+    if not path:
+        return
+    pid = os.getpid()
+    if pid != _pid:  # first event, or first event after a fork
+        _pid = pid
+        _seq = 0
+    _seq += 1
+    rec = {"ev": event, "pid": pid, "seq": _seq}
+    rec.update(fields)
+    line = (json.dumps(rec, default=_plain) + "\n").encode()
+    fd = os.open(path, os.O_WRONLY | os.O_APPEND | os.O_CREAT, 0o644)
+    try:
+        os.write(fd, line)
+    finally:
+        os.close(fd)
